@@ -22,7 +22,7 @@ class PrintUnit(Unit):
     def kani_module(self, ctx, prog):
         return spec_print.kani_module(prog, want_names=True)
     def kani_harnesses(self, ctx, prog):
-        if ctx.pid != 'C03':
+        if ctx.pid != 'C03' or 'random' in prog.tags:
             return []
         return spec_print.kani_harness_list(prog, want_names=True)
     def twin_of(self, ctx, prog, fn):
